@@ -54,7 +54,7 @@ RECIPES = {
         level="model_checking",
         monitors={"C01"},
         mc=[MC_QM, MC_CLEAN],
-        runs=[dict(cmd="run", gen="restarts:120,gc-heavy:20,big:8,many-queues:8,names:8,aim-gc:60,aim-roll:30,aim-block:40,aim-batch:10,aim-pin:20,aim-seam:40,aim-stale:10,aim-span:10,aim-recreate:30,recreate:20", policy="always_flush"),
+        runs=[dict(cmd="run", gen="restarts:120,gc-heavy:20,big:8,many-queues:8,names:8,aim-gc:60,aim-roll:30,aim-block:40,aim-batch:10,aim-pin:20,aim-seam:40,aim-stale:10,aim-span:10,aim-recreate:30,recreate:20,empties:20", policy="always_flush"),
               dict(cmd="run", gen="restarts:30,gc-heavy:6", policy="do_nothing,always_fsync,on_delay_long_flush"),
               dict(cmd="run", genreal="GEN_Wal.cfg", genreal_thorough="GEN_Wal_5.cfg")],
         rule="state after every Drop+open compared with QueueMap's state before it; non-trivial = restarts executed",
@@ -269,13 +269,17 @@ RECIPES = {
         level="exploration",
         monitors={"C17"},
         mc=[],
-        runs=[dict(cmd="names", gen="gc-heavy:30,big:6,aim-gc:10,aim-roll:10", policy="always_flush", thorough_factor=10)],
+        runs=[dict(cmd="names", gen="gc-heavy:30,big:6,aim-gc:10,aim-roll:10", policy="always_flush", thorough_factor=10),
+              # "ordered by that number with gaps allowed": the WAL files of a closed image renamed by an order-preserving
+              # map (numbers below, across and above 10^19, near the top of u64, with gaps) must open to the same state
+              dict(cmd="damage", gen="gc-heavy:12,big:4,small:10,aim-gc:6", policy="always_flush", opts={"classes": "renumber"}, thorough_factor=6)],
         rule="(a) ~330 near-miss names (every single-byte edit of a valid name, other lengths, non-ASCII digits, invalid "
              "UTF-8, the u64 boundary) x {regular file, directory, symlink to a valid WAL file} next to one valid WAL "
              "file: listed as WAL iff IsWalName and regular file (decided by TLC), untouched otherwise; (b) histories with "
              "roll-over and GC in directories pre-populated with WAL files 3,7,8 and foreign entries: created = last+1, "
              "removed oldest first, only tracked numbers opened/removed, foreign entries unchanged, numeric replay order; "
-             "non-trivial = name cases + histories",
+             "(c) closed images whose WAL files were renumbered order-preservingly (six maps) open to the state a clean "
+             "restart gives; non-trivial = name cases + histories",
         nontrivial_stat="name_cases",
     ),
     "C07": dict(
